@@ -81,15 +81,18 @@ def derived_cases(rng, m, ctx):
         if rng.random() < 0.6:
             plo = int(rng.integers(0, T))
             stored = [plo, int(rng.integers(plo, T))]
-            a.set_prange(stored)
+            a.set_prange(list(stored))
+        given = [lo, hi]                   # the caller's own list, handed to both calls
         for method in ('fit', 'avg'):
-            r = _call(lambda: a.plateau([lo, hi], method=method))
+            r = _call(lambda: a.plateau(given, method=method))
             cases.append({'id': '%s-plateau-%s-%d-%d-%s%s' % (m['id'], method, lo, hi, kind, '-stored' if stored else ''), 'ev': 'derived', 'what': 'plateau',
                           'variant': method, 'method': method, 'lo': lo, 'hi': hi, 'dv': dv, 'a': pcorr(a), 'n': NS, 'res': pres(r)})
             if stored:
                 r = _call(lambda: a.plateau(method=method))
                 cases.append({'id': '%s-plateau-%s-prange-%d-%d-%s' % (m['id'], method, stored[0], stored[1], kind), 'ev': 'derived', 'what': 'plateau',
                               'variant': method, 'method': method, 'lo': stored[0], 'hi': stored[1], 'dv': dv, 'a': pcorr(a), 'n': NS, 'res': pres(r)})
+        cases.append({'id': '%s-plateau-frame-%s' % (m['id'], kind), 'ev': 'frame', 'what': 'plateau leaves the range it was given and the stored plateau range as they were',
+                      'before': [lo, hi] + (stored or []), 'after': [int(v) for v in given] + ([int(v) for v in a.prange] if stored else []), 'first': [], 'second': []})
     for kind, variants in (('cosh', ('cosh', 'periodic')), ('sinh', ('sinh',))):
         if T < 4:
             continue
